@@ -4,6 +4,8 @@ package pbft
 // a ConsensusState built directly (no node start-up) around seam fakes.
 
 import (
+	"bytes"
+
 	"github.com/dappledger/AnnChain/gemmill/go-crypto"
 	gcmn "github.com/dappledger/AnnChain/gemmill/modules/go-common"
 	clist "github.com/dappledger/AnnChain/gemmill/modules/go-clist"
@@ -14,9 +16,15 @@ import (
 
 // ---- fake crypto (as in the types harnesses) ----
 
-// A signature is a real (wire-registered) SignatureEd25519 whose first byte says whether it is
-// valid and whose second byte is an id; the fake public key believes the first byte.
-func vSig(valid bool, id byte) crypto.Signature {
+// Validators carry real (wire-registered) ed25519 key types. Natively the keys are freshly
+// generated and votes / proposals are really signed; under the engine ed25519.Verify is stubbed
+// to "first signature byte == 1", so a signature's validity is simply what the harness chose.
+var (
+	vKeys []crypto.PrivKeyEd25519 // aligned with the validator index of vVals (native only)
+	vVals *types.ValidatorSet
+)
+
+func vSigBytes(valid bool, id byte) crypto.Signature {
 	var s crypto.SignatureEd25519
 	if valid {
 		s[0] = 1
@@ -25,25 +33,40 @@ func vSig(valid bool, id byte) crypto.Signature {
 	return s
 }
 
+// vSigValid: did the harness make this signature valid? (engine: first byte; natively: non-zero)
 func vSigValid(sig crypto.Signature) bool {
 	s, ok := sig.(crypto.SignatureEd25519)
-	return ok && s[0] == 1
+	if !ok {
+		return false
+	}
+	if vSymbolic() {
+		return s[0] == 1
+	}
+	for _, b := range s[3:] {
+		if b != 0 {
+			return true
+		}
+	}
+	return false
 }
 
-type vFakeKey struct{ ID byte }
-
-func (k vFakeKey) Address() []byte             { return []byte{k.ID} }
-func (k vFakeKey) Bytes() []byte               { return []byte{k.ID} }
-func (k vFakeKey) KeyString() string           { return "fakekey" }
-func (k vFakeKey) Equals(o crypto.PubKey) bool { ok, is := o.(vFakeKey); return is && ok.ID == k.ID }
-func (k vFakeKey) VerifyBytes(msg []byte, sig crypto.Signature) bool {
-	return vSigValid(sig)
+// vSign produces validator i's signature over msg (valid) or a dud (invalid).
+func vSign(i int, msg []byte, valid bool, id byte) crypto.Signature {
+	if vSymbolic() || !valid || i < 0 || i >= len(vKeys) {
+		s := vSigBytes(valid && vSymbolic(), id).(crypto.SignatureEd25519)
+		if vSymbolic() && i >= 0 && i < len(vVals.Validators) {
+			s[2] = vVals.Validators[i].PubKey.(crypto.PubKeyEd25519)[0] // names the signing key
+		}
+		return s
+	}
+	return vKeys[i].Sign(msg)
 }
 
 // ---- fake signer: records every vote / proposal it is asked to sign ----
 
 type vSigner struct {
 	addr      []byte
+	index     int
 	refuse    bool
 	votes     []*types.Vote
 	proposals []*types.Proposal
@@ -56,7 +79,7 @@ func (s *vSigner) SignVote(chainID string, v *types.Vote) error {
 	}
 	cp := *v
 	s.votes = append(s.votes, &cp)
-	v.Signature = vSig(true, byte(100+len(s.votes)))
+	v.Signature = vSign(v.ValidatorIndex, types.SignBytes(chainID, v), true, byte(100+len(s.votes)))
 	return nil
 }
 func (s *vSigner) SignProposal(chainID string, p *types.Proposal) error {
@@ -65,7 +88,7 @@ func (s *vSigner) SignProposal(chainID string, p *types.Proposal) error {
 	}
 	cp := *p
 	s.proposals = append(s.proposals, &cp)
-	p.Signature = vSig(true, byte(200+len(s.proposals)))
+	p.Signature = vSign(s.index, types.SignBytes(chainID, p), true, byte(200+len(s.proposals)))
 	return nil
 }
 
@@ -146,10 +169,34 @@ func (vPool) GetPendingMaxNonce(b []byte) (uint64, error) { return 0, nil }
 
 func vValSet(n int, power int64) *types.ValidatorSet {
 	vals := make([]*types.Validator, n)
+	keys := make([]crypto.PrivKeyEd25519, n)
 	for i := range vals {
-		vals[i] = &types.Validator{Address: []byte{byte(i + 1)}, PubKey: vFakeKey{byte(i + 1)}, VotingPower: power, Accum: int64(-i)}
+		var pub crypto.PubKey
+		if vSymbolic() {
+			var pk crypto.PubKeyEd25519
+			pk[0] = byte(i + 1)
+			pub = pk
+		} else {
+			keys[i] = crypto.GenPrivKeyEd25519()
+			pub = keys[i].PubKey()
+		}
+		vals[i] = &types.Validator{Address: pub.Address(), PubKey: pub, VotingPower: power}
 	}
-	return &types.ValidatorSet{Validators: vals}
+	// sort by address, keeping the keys aligned with the validator index
+	for i := 0; i < n; i++ {
+		for j := i + 1; j < n; j++ {
+			if bytes.Compare(vals[j].Address, vals[i].Address) < 0 {
+				vals[i], vals[j] = vals[j], vals[i]
+				keys[i], keys[j] = keys[j], keys[i]
+			}
+		}
+	}
+	for i := range vals {
+		vals[i].Accum = int64(-i) // index 0 proposes
+	}
+	vKeys = keys
+	vVals = &types.ValidatorSet{Validators: vals}
+	return vVals
 }
 
 const vChain = "verif-chain"
@@ -197,7 +244,8 @@ func vNewCS(n int, height int64, me int) *vCS {
 	cs.setProposal = cs.defaultSetProposal
 	cs.evsw = h.evsw
 	if me >= 0 {
-		h.signer.addr = []byte{byte(me + 1)}
+		h.signer.addr = vals.Validators[me].Address
+		h.signer.index = me
 		cs.privValidator = h.signer
 	}
 	cs.Height = height
@@ -212,10 +260,16 @@ func vNewCS(n int, height int64, me int) *vCS {
 	return h
 }
 
-// vVote builds a (fake-signed) vote of validator i.
+// vVote builds a vote of validator i, signed (valid) or carrying a dud signature.
 func vVote(i int, height, round int64, typ byte, bid types.BlockID, valid bool, id byte) *types.Vote {
-	return &types.Vote{ValidatorIndex: i, ValidatorAddress: []byte{byte(i + 1)}, Height: height, Round: round, Type: typ,
-		BlockID: bid, Signature: vSig(valid, id)}
+	v := &types.Vote{ValidatorIndex: i, Height: height, Round: round, Type: typ, BlockID: bid}
+	if i >= 0 && i < len(vVals.Validators) {
+		v.ValidatorAddress = vVals.Validators[i].Address
+	} else {
+		v.ValidatorAddress = []byte{0xEE}
+	}
+	v.Signature = vSign(i, types.SignBytes(vChain, v), valid, id)
+	return v
 }
 
 // digest of the consensus-relevant RoundState (for "rejected input leaves the state untouched")
